@@ -46,6 +46,7 @@ enum
     L_NEAR_MISS,      // the line passes the box at a distance between 2^-48 and 2^-8 of the box size
     L_SLIGHTLY_INVERTED,
     L_INFINITE_FACE,
+    L_HUGE_FINITE_T, // some quotient (face - pos) / dir lies in [TMAX/4, TMAX): finite, just below the overflow guard
     L_NLABELS
 };
 #define C14_LABELS                                                                                                                            \
@@ -53,7 +54,7 @@ enum
         "ray_front_face_min_x", "ray_front_face_max_x", "ray_front_face_min_y", "ray_front_face_max_y", "ray_front_face_min_z", "ray_front_face_max_z",           \
         "line_entry_face_min_x", "line_entry_face_max_x", "line_entry_face_min_y", "line_entry_face_max_y", "line_entry_face_min_z", "line_entry_face_max_z",     \
         "line_exit_face_min_x", "line_exit_face_max_x", "line_exit_face_min_y", "line_exit_face_max_y", "line_exit_face_min_z", "line_exit_face_max_z",           \
-        "boolean_unstable_skipped", "some_quotient_exceeds_TMAX", "denormal_or_zero_t", "direction_not_unit_length", "t_rounds_to_zero_origin_outside", "near_miss_or_near_hit_below_2^-8", "box_inverted_by_ulps_far_origin", "box_face_at_plus_minus_max"
+        "boolean_unstable_skipped", "some_quotient_exceeds_TMAX", "denormal_or_zero_t", "direction_not_unit_length", "t_rounds_to_zero_origin_outside", "near_miss_or_near_hit_below_2^-8", "box_inverted_by_ulps_far_origin", "box_face_at_plus_minus_max", "finite_parameter_above_TMAX/4"
 #define C14_FACE_LABELS                                                                                                                       \
     "ray_front_face_min_x", "ray_front_face_max_x", "ray_front_face_min_y", "ray_front_face_max_y", "ray_front_face_min_z", "ray_front_face_max_z",               \
         "line_entry_face_min_x", "line_entry_face_max_x", "line_entry_face_min_y", "line_entry_face_max_y", "line_entry_face_min_z", "line_entry_face_max_z",     \
@@ -516,7 +517,7 @@ template <class T> static void float_case (vp::Ctx& c, const Box<Vec3<T>>& b, co
     qoracle (mnp, mxp, p, d, op);
     qoracle (mnm, mxm, p, d, om); // "empty" when the box is thinner than 2 delta: counts as a miss
     int  ovf = 0;
-    bool tinyt = false, par = false, unnorm;
+    bool tinyt = false, par = false, unnorm, hugefin = false;
     quad len2 = 0;
     for (int i = 0; i < 3; ++i)
     {
@@ -528,6 +529,7 @@ template <class T> static void float_case (vp::Ctx& c, const Box<Vec3<T>>& b, co
         }
         quad q1 = qabs ((mn[i] - p[i]) / d[i]), q2 = qabs ((mx[i] - p[i]) / d[i]);
         if (qmax (q1, q2) >= TMAX) ++ovf;
+        else if (qmax (q1, q2) >= TMAX / 4) hugefin = true;
         if (qmin (q1, q2) < (quad) L::min ()) tinyt = true;
     }
     unnorm = qabs (len2 - 1) > 1e-3;
@@ -545,6 +547,7 @@ template <class T> static void float_case (vp::Ctx& c, const Box<Vec3<T>>& b, co
         }
     }
     if (ovf) c.label (L_QUOTIENT_OVERFLOW);
+    if (hugefin && !ovf) c.label (L_HUGE_FINITE_T);
     if (tinyt) c.label (L_TINY_T);
     if (par) c.label (L_AXIS_PARALLEL);
     if (unnorm) c.label (L_UNNORMALISED);
@@ -1066,5 +1069,62 @@ VP_RANDOM (close_calls, 1000000, 20000000, "float or double; boxes with volume (
 VP_LABELS (close_calls, C14_LABELS)
 VP_REQUIRE_LABELS (close_calls, "ray_hit", "ray_miss", "line_miss", "origin_on_surface", "axis_parallel", "denormal_or_zero_t", "t_rounds_to_zero_origin_outside", "near_miss_or_near_hit_below_2^-8", "boolean_unstable_skipped", "box_inverted_by_ulps_far_origin", "box_face_at_plus_minus_max", "empty_box")
 VP_FUZZABLE (close_calls)
+
+// Directions made of a few denormals: the overflow guard |face - pos| < TMAX * |dir| sits at distances of
+// TMAX * denorm_min (4.8e-7 float, 8.9e-16 double).  Faces are placed at fractions of that distance, so that the
+// line parameters are finite and reach up to just below TMAX: the functions must answer as for any other scene.
+template <class T> static void subnormal_dir_case (vp::Ctx& c, const char* tn)
+{
+    typedef std::numeric_limits<T> L;
+    vp::Src&     s  = c.s;
+    const T      dm = L::denorm_min ();
+    Box<Vec3<T>> b;
+    Line3<T>     r;
+    unsigned     mask = s.coin () ? (1u << s.below (3)) : 1 + (unsigned) s.below (7);
+    for (int i = 0; i < 3; ++i)
+    {
+        if (!(mask & (1u << i)))
+        {
+            T a      = boxval<T> (s);
+            T e      = a + (T) std::fabs (boxval<T> (s)) + (T) 0.125;
+            b.min[i] = a;
+            b.max[i] = e;
+            r.dir[i] = 0;
+            double u = s.uniform (0.05, 0.95);
+            r.pos[i] = (T) ((double) a + u * (double) (e - a));
+            if (s.chance (24)) r.pos[i] = s.coin () ? a - (T) 0.5 : e + (T) 0.5;
+            continue;
+        }
+        int    k   = 1 + (int) s.below (4);
+        bool   neg = s.coin ();
+        r.dir[i]   = neg ? -(T) k * dm : (T) k * dm;
+        T      Li  = L::max () * ((T) k * dm); // distances below Li have a finite parameter
+        double f1  = s.uniform (0.01, 0.999), f2 = s.uniform (0.01, 0.999);
+        if (s.chance (96)) f2 = s.uniform (0.5, 0.9999);
+        if (f1 > f2) std::swap (f1, f2);
+        if (f2 - f1 < 0.001) f1 = f2 / 2;
+        T      p0  = s.chance (128) ? (T) 0 : (T) (s.uniform (-1, 1) * (double) Li);
+        int    pl  = (int) s.below (8); // 0..5 box ahead, 6 origin inside the slab, 7 box behind
+        double sg  = (neg ? -1.0 : 1.0) * (pl == 7 ? -1.0 : 1.0);
+        T      n   = (T) ((double) p0 + sg * (pl == 6 ? -f1 : f1) * (double) Li);
+        T      fr  = (T) ((double) p0 + sg * f2 * (double) Li);
+        r.pos[i]   = p0;
+        b.min[i]   = std::min (n, fr);
+        b.max[i]   = std::max (n, fr);
+    }
+    VP_NOTE (c, tn << " " << caseStr (b, r));
+    float_case<T> (c, b, r, true);
+}
+
+VP_RANDOM (subnormal_directions, 600000, 12000000, "float or double; 1..3 direction components k * denorm_min (k = 1..4, either sign), the others 0; on those axes the origin is 0 or within +-TMAX*|dir_i| and the two faces lie at fractions 0.01..0.9999 of TMAX*|dir_i| ahead of it (1/8 origin inside the slab, 1/8 box behind), so every line parameter is finite and up to just below TMAX; on the other axes a moderate slab with the origin inside (1/10 outside); oracle as in `aimed` with per-face inflation 16 eps (|face| + |pos_i|); scenes whose quotient overflows after rounding fall under the listed short-direction findings; non-trivial = as in `aimed`")
+{
+    if (c.s.coin ())
+        subnormal_dir_case<double> (c, "double");
+    else
+        subnormal_dir_case<float> (c, "float");
+}
+VP_LABELS (subnormal_directions, C14_LABELS)
+VP_REQUIRE_LABELS (subnormal_directions, "ray_hit", "ray_miss", "line_hits_behind_origin", "line_miss", "origin_strictly_inside", "axis_parallel", "direction_not_unit_length", "finite_parameter_above_TMAX/4")
+VP_FUZZABLE (subnormal_directions)
 
 VP_MAIN ("C14")
